@@ -72,6 +72,11 @@ type Opt struct {
 	UseVar     bool     `json:"usevar,omitempty"`
 	SetCalled  bool     `json:"setcalled,omitempty"`
 	AliasSplit bool     `json:"aliassplit,omitempty"` // aliases given through two Alias modifiers instead of one
+	// Late - declared on its level after the level's commands were created; a later HelpCommand on the program copies
+	// it down the tree like any other option (only generated for programs with a help command)
+	Late bool `json:"late,omitempty"`
+	// SetCalledFirst - SetCalled(true) is the first modifier (in front of GetEnv)
+	SetCalledFirst bool `json:"setcalledfirst,omitempty"`
 }
 
 // Keys - name followed by aliases.
@@ -533,7 +538,9 @@ func (b *Built) defineLevel(g *getoptions.GetOpt, c *Cmd, path string) {
 		})
 	}
 	for _, o := range c.Opts {
-		b.defineOpt(g, o)
+		if !o.Late {
+			b.defineOpt(g, o)
+		}
 	}
 	if c.HasFn {
 		node := path
@@ -562,6 +569,11 @@ func (b *Built) defineLevel(g *getoptions.GetOpt, c *Cmd, path string) {
 		}
 		b.defineLevel(sub, cc, cp)
 	}
+	for _, o := range c.Opts {
+		if o.Late {
+			b.defineOpt(g, o)
+		}
+	}
 }
 
 func (b *Built) defineOpt(g *getoptions.GetOpt, o *Opt) {
@@ -569,6 +581,9 @@ func (b *Built) defineOpt(g *getoptions.GetOpt, o *Opt) {
 		b.setEnv(o.Env, o.EnvVal, o.EnvSet)
 	}
 	var fns []getoptions.ModifyFn
+	if o.SetCalledFirst {
+		fns = append(fns, g.SetCalled(true))
+	}
 	if len(o.Aliases) > 1 && o.AliasSplit {
 		fns = append(fns, g.Alias(o.Aliases[:1]...), g.Alias(o.Aliases[1:]...))
 	} else if len(o.Aliases) > 0 {
